@@ -120,7 +120,21 @@ func genInner(t *rapid.T) sdk.Msg {
 	return &banktypes.MsgSend{}
 }
 
-func checkC20(c c20Case) error {
+// checkC20 runs a sequence of submissions against ONE keeper instance (state
+// kept in the keeper between calls must not leak from one owner to the next).
+func checkC20(cs ...c20Case) error {
+	ica := &fakeICA{}
+	caps := &fakeCap{}
+	k := keeper.NewKeeper(c20Codec, ica, caps)
+	for i, c := range cs {
+		if err := checkC20Step(k, ica, caps, c); err != nil {
+			return fmt.Errorf("submission %d of %d: %w", i+1, len(cs), err)
+		}
+	}
+	return nil
+}
+
+func checkC20Step(k keeper.Keeper, ica *fakeICA, caps *fakeCap, c c20Case) error {
 	var innerAny codectypes.Any
 	if err := innerAny.Unmarshal(c.InnerBin); err != nil {
 		return fmt.Errorf("harness: bad inner any: %v", err)
@@ -150,8 +164,8 @@ func checkC20(c c20Case) error {
 	}
 	port := "icacontroller-" + c.Owner
 	channel := "channel-7"
-	ica := &fakeICA{channels: map[string]string{}}
-	caps := &fakeCap{caps: map[string]*captypes.Capability{}}
+	ica.channels, ica.channelLookup, ica.sends = map[string]string{}, nil, nil
+	caps.caps, caps.lookups = map[string]*captypes.Capability{}, nil
 	theCap := captypes.NewCapability(42)
 	if c.Channel {
 		ica.channels[c.Conn+"|"+port] = channel
@@ -165,7 +179,6 @@ func checkC20(c c20Case) error {
 	}
 	caps.caps["capabilities/ports/"+port+"x/channels/channel-98"] = captypes.NewCapability(98)
 	caps.caps["capabilities/ports/"+port+"/channels/channel-99"] = captypes.NewCapability(99)
-	k := keeper.NewKeeper(c20Codec, ica, caps)
 	bt := time.Unix(0, c.BlockNs).UTC()
 	ctx := sdk.NewContext(nil, tmproto.Header{Time: bt, Height: 5}, false, log.NewNopLogger())
 	_, err = k.SubmitTx(sdk.WrapSDKContext(ctx), msg)
@@ -249,8 +262,26 @@ func TestC20(t *testing.T) {
 		if rapid.IntRange(0, 9).Draw(t, "upper") == 0 {
 			c.Owner = upper(c.Owner)
 		}
-		if err := checkC20(c); err != nil {
-			saveCase("C20", c)
+		seq := []c20Case{c}
+		// follow-up submissions on the same keeper: other owners on the same connection, the
+		// same owner after the channel or capability went away, other connections
+		for n := rapid.IntRange(0, 3).Draw(t, "followups"); n > 0; n-- {
+			f := c
+			switch rapid.IntRange(0, 3).Draw(t, "fmode") {
+			case 0:
+				f.Owner = genAddr(t, "fowner")
+			case 1:
+				f.Channel, f.Cap = rapid.Bool().Draw(t, "fchan"), rapid.Bool().Draw(t, "fcap")
+			case 2:
+				f.Conn = c.Conn + "1"
+				f.Owner = genAddr(t, "fowner2")
+			default:
+				f.BlockNs = c.BlockNs + int64(rapid.IntRange(1, 1_000_000_000).Draw(t, "dt"))
+			}
+			seq = append(seq, f)
+		}
+		if err := checkC20(seq...); err != nil {
+			saveCase("C20", seq)
 			t.Fatalf("PROPERTY-FAIL C20: %v", err)
 		}
 		// two different owners never share a port
@@ -280,11 +311,11 @@ func upper(s string) string {
 func TestC20Witness(t *testing.T) {
 	for _, f := range witnessFiles("C20", ".json") {
 		bz, _ := os.ReadFile(f)
-		var c c20Case
-		if err := json.Unmarshal(bz, &c); err != nil {
+		cs, err := loadC20(bz)
+		if err != nil {
 			t.Fatalf("harness: %v", err)
 		}
-		if err := checkC20(c); err != nil {
+		if err := checkC20(cs...); err != nil {
 			fmt.Printf("WITNESS-VIOLATION key=pure-case file=%s\n", f)
 			t.Fatalf("PROPERTY-FAIL C20 witness: %v", err)
 		}
@@ -300,11 +331,23 @@ func TestC20Replay(t *testing.T) {
 	if err != nil {
 		t.Fatalf("harness: %v", err)
 	}
-	var c c20Case
-	if err := json.Unmarshal(bz, &c); err != nil {
+	cs, err := loadC20(bz)
+	if err != nil {
 		t.Fatalf("harness: %v", err)
 	}
-	if err := checkC20(c); err != nil {
+	if err := checkC20(cs...); err != nil {
 		t.Fatalf("PROPERTY-FAIL C20: %v", err)
 	}
+}
+
+func loadC20(bz []byte) ([]c20Case, error) {
+	var cs []c20Case
+	if err := json.Unmarshal(bz, &cs); err == nil {
+		return cs, nil
+	}
+	var c c20Case
+	if err := json.Unmarshal(bz, &c); err != nil {
+		return nil, err
+	}
+	return []c20Case{c}, nil
 }
